@@ -21,6 +21,17 @@ pub(crate) fn read_nint<R: BufRead + Seek>(raw: &mut Deserializer<R>) -> Result<
     }
 }
 
+/// Writes `value` (-2^64 ..= -1) as a CBOR negative integer with the shortest head.
+/// `Serializer::write_negative_integer` takes an `i64` and computes `-value - 1`, which overflows for
+/// `i64::MIN`; the `_sz` variant works on `i128`, so the canonical size is passed explicitly.
+pub(crate) fn write_nint<'se, W: Write>(
+    serializer: &'se mut Serializer<W>,
+    value: i128,
+) -> cbor_event::Result<&'se mut Serializer<W>> {
+    let argument = (-1 - value) as u64;
+    serializer.write_negative_integer_sz(value, cbor_event::Sz::canonical(argument))
+}
+
 pub(super) fn deserialize_and_check_index<R: BufRead + Seek>(
     raw: &mut Deserializer<R>,
     desired_index: Option<u64>,
